@@ -12,8 +12,16 @@
 // header, jxlc / jxlp / brob semantics) and of the C10 property text; it works on an abstract state that
 // forgets nothing observable.
 //
-// C09 (chunking independence) is the relational harness at the end: feed B at once  ==  feed B[..k],
-// then re-offer the unconsumed rest followed by B[k..].
+// C09 (chunking independence: feed B at once == feed B[..k], then re-offer the unconsumed rest followed by
+// B[k..]) is the one-step prefix lemma at the end, proved on spec_step and transferred to the parser by
+// the step contracts.
+//
+// Findings made with these contracts (see the registry for the obligations):
+//  * ContainerBoxHeader::parse returned InvalidBox for a size==1 header with 8..15 bytes buffered (fixed in
+//    /repo 6a420b0; ct.box_header, ct.box_header_prefix and ct.step_box_header guard it).
+//  * After Err(ValidationFailed) for a brob box of a reserved type, bytes_left has already been reduced by
+//    4 while brotli_box_type is still None: the state leaves Inv and the next feed of >= 4 bytes computes
+//    `*bytes_left -= 4` on a value < 4 (overflow panic in checked builds). Obligation ct.err_then_refeed.
 use super::*;
 
 // Box types are handled as big-endian u32 four-character codes in the specification (no array compares:
@@ -586,9 +594,12 @@ fn spec_aux(mut s: AState, buf: &[u8], mut pos: usize) -> SpecStep {
 // ------------------------------------------------------------------------------------------------
 const MAXB: usize = 24;
 
-/// 64-bit box header of which 8..=15 bytes are available (the defect class of ct.box_header)
-fn largesize_cut(b: &[u8]) -> bool {
-    b.len() >= 8 && b.len() < 16 && b[0] == 0 && b[1] == 0 && b[2] == 0 && b[3] == 1
+/// What a run of step_contract came across (for kani::cover! in the harnesses).
+#[derive(Clone, Copy)]
+struct Seen {
+    event: bool,
+    quiet: bool,
+    error: bool,
 }
 
 /// Which part of (state x input) a harness covers. Everything here is a literal at the call site, so
@@ -604,7 +615,7 @@ struct Case {
 }
 
 /// One `next()` from any Inv state of the case, on any buffer of <= MAXB bytes.
-fn step_contract(case: Case) {
+fn step_contract(case: Case) -> Seen {
     let data: [u8; MAXB] = kani::any();
     let len: usize = match case.exact_len {
         Some(n) => n,
@@ -630,18 +641,17 @@ fn step_contract(case: Case) {
     let pcb1 = parser.previous_consumed_bytes;
     let after = abs(&parser);
 
-    kani::cover!(matches!(&r, Some(Ok(_))));
-    if case.exact_len.is_none() {
-        kani::cover!(r.is_none() && !finished0);
-    }
-    if case.phase == 1 || case.phase == 2 || (case.phase == 3 && !case.plain_aux) {
-        kani::cover!(matches!(&r, Some(Err(_))));
-    }
+    // outcome classes for the vacuity guards of the individual harnesses
+    let seen = Seen {
+        event: matches!(&r, Some(Ok(_))),
+        quiet: r.is_none() && !finished0,
+        error: matches!(&r, Some(Err(_))),
+    };
 
     if finished0 {
         assert!(r.is_none() && after == before && pcb1 == pcb0 && rem_len == len && finished1,
             "[C10,C01] a finished event iterator stays finished and changes nothing");
-        return;
+        return seen;
     }
 
     // bookkeeping that holds whatever the outcome
@@ -650,13 +660,6 @@ fn step_contract(case: Case) {
     assert!(pcb1 == pcb0 + consumed, "[C10,C09] previous_consumed_bytes grows by exactly the bytes taken from the buffer");
     if rem_len > 0 {
         assert!(rem_ptr as usize == (base as usize) + consumed, "[C10,C09] what remains is the unread tail of the fed buffer");
-    }
-
-    if matches!(before.ph, Ph::Hdr) && largesize_cut(buf) {
-        // isolated: same defect class as ct.box_header (ContainerBoxHeader::parse on a cut 64-bit header)
-        assert!(r.is_none() && consumed == 0 && after == before,
-            "[C10,C09] a size==1 (64-bit largesize) box header with only 8..15 bytes in the buffer waits for more data");
-        return;
     }
 
     let spec = spec_step(before, buf);
@@ -706,7 +709,7 @@ fn step_contract(case: Case) {
                 assert!(inv_abs(&after), "[C01,C10] Inv holds after a rejected box");
             }
             std::mem::forget(r);
-            return;
+            return seen;
         }
         (Some(Err(_)), _) => assert!(false, "[C10] well-formed input rejected"),
         (_, Out::Reject(_)) => assert!(false, "[C10] ill-formed layout (duplicate/misplaced jxlc, out-of-order or post-final jxlp, jxlp or brob smaller than 4 bytes, brob of a reserved type, undersized box) must be rejected"),
@@ -716,6 +719,7 @@ fn step_contract(case: Case) {
     assert!(inv_abs(&after), "[C01,C10] Inv is re-established");
     // the result may hold an Error whose drop glue (io::Error) is irrelevant here and slow in CBMC
     std::mem::forget(r);
+    seen
 }
 
 const ANY: Case = Case { phase: 0, plain_aux: false, exact_len: None };
@@ -732,27 +736,38 @@ const ANY: Case = Case { phase: 0, plain_aux: false, exact_len: None };
 #[kani::proof]
 #[kani::unwind(14)]
 fn step_signature() {
-    step_contract(Case { phase: 0, ..ANY });
+    let seen = step_contract(Case { phase: 0, ..ANY });
+    kani::cover!(seen.event);
+    kani::cover!(seen.quiet);
 }
 
 // WaitingBoxHeader, all box types, all three size forms, any buffer <= MAXB (thorough).
 #[kani::proof]
 #[kani::unwind(5)]
 fn step_box_header() {
-    step_contract(Case { phase: 1, ..ANY });
+    let seen = step_contract(Case { phase: 1, ..ANY });
+    kani::cover!(seen.event);
+    kani::cover!(seen.quiet);
+    kani::cover!(seen.error);
 }
 
 #[kani::proof]
 #[kani::unwind(5)]
 fn step_jxlp_index() {
-    step_contract(Case { phase: 2, ..ANY });
+    let seen = step_contract(Case { phase: 2, ..ANY });
+    kani::cover!(seen.event);
+    kani::cover!(seen.quiet);
+    kani::cover!(seen.error);
 }
 
 // InAuxBox, all box types including brob (original type read or not), any buffer <= MAXB (thorough).
 #[kani::proof]
 #[kani::unwind(5)]
 fn step_aux_box() {
-    step_contract(Case { phase: 3, ..ANY });
+    let seen = step_contract(Case { phase: 3, ..ANY });
+    kani::cover!(seen.event);
+    kani::cover!(seen.quiet);
+    kani::cover!(seen.error);
 }
 
 // InAuxBox of a box that is not brob, any buffer <= MAXB: one iteration of emit_single suffices and the
@@ -760,20 +775,26 @@ fn step_aux_box() {
 #[kani::proof]
 #[kani::unwind(2)]
 fn step_aux_box_plain() {
-    step_contract(Case { phase: 3, plain_aux: true, ..ANY });
+    let seen = step_contract(Case { phase: 3, plain_aux: true, ..ANY });
+    kani::cover!(seen.event);
+    kani::cover!(seen.quiet);
 }
 
 // InAuxBox, all box types including brob, buffer = exactly 4 bytes (the original type of a brob box).
 #[kani::proof]
 #[kani::unwind(5)]
 fn step_aux_box_4() {
-    step_contract(Case { phase: 3, exact_len: Some(4), ..ANY });
+    let seen = step_contract(Case { phase: 3, exact_len: Some(4), ..ANY });
+    kani::cover!(seen.event);
+    kani::cover!(seen.error);
 }
 
 #[kani::proof]
 #[kani::unwind(5)]
 fn step_codestream() {
-    step_contract(Case { phase: 4, ..ANY });
+    let seen = step_contract(Case { phase: 4, ..ANY });
+    kani::cover!(seen.event);
+    kani::cover!(seen.quiet);
 }
 
 // base case of the induction + feed_bytes resets the consumption counter + kind()
@@ -781,7 +802,7 @@ fn step_codestream() {
 fn init_establishes_inv() {
     let p = ContainerParser::new();
     assert!(abs(&p) == AState { ph: Ph::Sig, seq: Seq::Initial } && inv(&p), "[C10,C01] a new parser satisfies Inv");
-    assert!(p.previous_consumed_bytes() == 0 && p.kind() == BitstreamKind::Unknown, "[C10]");
+    assert!(p.previous_consumed_bytes() == 0 && p.kind() == BitstreamKind::Unknown, "[C10,C09] nothing consumed, kind unknown");
 
     let phase: u8 = kani::any();
     kani::assume(phase <= 4);
@@ -792,9 +813,9 @@ fn init_establishes_inv() {
     let data: [u8; 4] = kani::any();
     {
         let it = q.feed_bytes(&data);
-        assert!(!it.finished && it.remaining_input.len() == 4 && it.remaining_input.as_ptr() == data.as_ptr(), "[C09] feed_bytes offers the whole buffer");
+        assert!(!it.finished && it.remaining_input.len() == 4 && it.remaining_input.as_ptr() == data.as_ptr(), "[C09,C10] feed_bytes offers the whole buffer");
     }
-    assert!(q.previous_consumed_bytes() == 0 && abs(&q) == before, "[C09] feed_bytes resets previous_consumed_bytes and nothing else");
+    assert!(q.previous_consumed_bytes() == 0 && abs(&q) == before, "[C09,C10] feed_bytes resets previous_consumed_bytes and nothing else");
 }
 
 // ------------------------------------------------------------------------------------------------
@@ -832,66 +853,22 @@ fn err_then_refeed() {
 }
 
 // ------------------------------------------------------------------------------------------------
-// C09: chunking independence of a whole feed.
+// C09: chunking independence.
 //
 // A feed (`for e in parser.feed_bytes(buf)`) is the iteration of `next()` until it returns None. The step
 // contracts above prove that every `next()` from an Inv state on a buffer of <= MAXB bytes behaves exactly
-// like spec_step and re-establishes Inv -- so a feed of the real parser is the iteration of spec_step
-// (`spec_feed` below). The relational contract is proved on that iteration, for every Inv state, every
-// buffer B and every cut k:
+// like spec_step and re-establishes Inv -- so a feed of the real parser is the iteration of spec_step.
+// Chunking independence,
 //
 //     feed(S, B)   ==   feed(S, B[..k]) ; feed(S', B[c..])      where c = bytes consumed by the first feed
-// (B of <= CHUNK_B bytes here; the one-step lemma further down removes the length bound)
 //
-// (the API: bytes not consumed are offered again, followed by the new bytes). "==" is: same error status,
-// same event sequence once adjacent payload events are merged -- payloads are compared as ranges of B, which
-// is stronger than comparing their bytes --, same final state, same total consumption.
+// (same error status, same events once adjacent payload events are merged, payloads covering the same
+// ranges of B, same final state, same total consumption), follows by induction on the steps of the single
+// feed from the one-step lemma below, for feeds of any length and, by induction on the cuts, any chunking.
+// (A direct feed-level harness -- three iterated feeds over a 10..16 byte buffer -- did not finish in CBMC
+// within 20 minutes and is not part of the suite.)
 // Any breaking change of the real parser is caught by the step contracts (they carry the C09 tag too).
 // ------------------------------------------------------------------------------------------------
-/// feed-level harness: buffers of <= CHUNK_B bytes yield at most 5 events (+ 1 quiet step)
-const CHUNK_B: usize = 16;
-const MAXEV: usize = 6;
-
-struct Log {
-    n: usize,
-    ev: [Ev; MAXEV],
-    rejected: Option<u8>,
-    overflow: bool,
-}
-
-impl Log {
-    fn new() -> Self {
-        Log { n: 0, ev: [Ev::NoMoreAux; MAXEV], rejected: None, overflow: false }
-    }
-    /// Records an event; payload events that continue the previous payload event are merged into it and
-    /// empty payload events (which deliver nothing) are dropped.
-    fn push(&mut self, e: Ev) {
-        match e {
-            Ev::Data { len: 0, .. } | Ev::Code { len: 0, .. } => return,
-            _ => {}
-        }
-        if self.n > 0 {
-            match (self.ev[self.n - 1], e) {
-                (Ev::Data { ty: a, off: o, len: l }, Ev::Data { ty: b, off: o2, len: l2 }) if a == b && o + l == o2 => {
-                    self.ev[self.n - 1] = Ev::Data { ty: a, off: o, len: l + l2 };
-                    return;
-                }
-                (Ev::Code { off: o, len: l }, Ev::Code { off: o2, len: l2 }) if o + l == o2 => {
-                    self.ev[self.n - 1] = Ev::Code { off: o, len: l + l2 };
-                    return;
-                }
-                _ => {}
-            }
-        }
-        if self.n >= MAXEV {
-            self.overflow = true;
-            return;
-        }
-        self.ev[self.n] = e;
-        self.n += 1;
-    }
-}
-
 fn shifted(e: Ev, by: usize) -> Ev {
     match e {
         Ev::Data { ty, off, len } => Ev::Data { ty, off: off + by, len },
@@ -900,106 +877,8 @@ fn shifted(e: Ev, by: usize) -> Ev {
     }
 }
 
-/// Iterates spec_step over `buf` (which starts at offset `origin` of the whole stream) until it is quiet
-/// or rejects. Returns the number of bytes consumed.
-fn spec_feed(s: &mut AState, buf: &[u8], origin: usize, log: &mut Log) -> usize {
-    let mut pos = 0usize;
-    let mut i = 0;
-    while i < MAXEV {
-        i += 1;
-        // only the first step of a feed can still be waiting for the signature (a quiet step ends the feed)
-        let st = if i == 1 { spec_step(*s, &buf[pos..]) } else { spec_step_after_signature(*s, &buf[pos..]) };
-        match st.out {
-            Out::Quiet => {
-                *s = st.next;
-                return pos + st.consumed;
-            }
-            Out::Reject(k) => {
-                log.rejected = Some(k);
-                return pos;
-            }
-            Out::Event(e) => {
-                log.push(shifted(e, origin + pos));
-                *s = st.next;
-                pos += st.consumed;
-            }
-        }
-    }
-    log.overflow = true;
-    pos
-}
-
-fn chunking_contract(phase: u8) {
-    let data: [u8; CHUNK_B] = kani::any();
-    let len: usize = kani::any();
-    let k: usize = kani::any();
-    kani::assume(len <= CHUNK_B && k <= len);
-
-    let (_parts, s0) = any_inv_abs(phase);
-
-    // at once
-    let mut sa = s0;
-    let mut la = Log::new();
-    let ca = spec_feed(&mut sa, &data[..len], 0, &mut la);
-
-    // in two feeds
-    let mut sb = s0;
-    let mut lb = Log::new();
-    let c1 = spec_feed(&mut sb, &data[..k], 0, &mut lb);
-    let mut cb = c1;
-    if lb.rejected.is_none() {
-        cb += spec_feed(&mut sb, &data[c1..len], c1, &mut lb);
-    }
-
-    assert!(!la.overflow && !lb.overflow, "[C09] event bound of the harness is large enough");
-    kani::cover!(la.n >= 3 && la.rejected.is_none() && k > 0 && k < len);
-    kani::cover!(la.rejected.is_some() && k > 0 && k < len);
-
-    assert!(la.rejected == lb.rejected, "[C09,C10] feeding in two chunks rejects exactly when feeding at once does");
-    assert!(la.n == lb.n, "[C09,C10] same number of events (payload events merged)");
-    let i: usize = kani::any();
-    kani::assume(i < la.n && i < MAXEV);
-    assert!(la.ev[i] == lb.ev[i], "[C09,C10] same events in the same order, payloads cover the same bytes");
-    if la.rejected.is_none() {
-        assert!(sa == sb, "[C09] same final parser state");
-        assert!(ca == cb, "[C09] same total consumption");
-        assert!(inv_abs(&sa), "[C09,C01] Inv");
-    }
-}
-
-#[kani::proof]
-#[kani::unwind(14)]
-fn chunking_from_signature() {
-    chunking_contract(0);
-}
-
-#[kani::proof]
-#[kani::unwind(14)]
-fn chunking_from_box_header() {
-    chunking_contract(1);
-}
-
-#[kani::proof]
-#[kani::unwind(14)]
-fn chunking_from_jxlp_index() {
-    chunking_contract(2);
-}
-
-#[kani::proof]
-#[kani::unwind(14)]
-fn chunking_from_aux_box() {
-    chunking_contract(3);
-}
-
-#[kani::proof]
-#[kani::unwind(14)]
-fn chunking_from_codestream() {
-    chunking_contract(4);
-}
-
 // ------------------------------------------------------------------------------------------------
-// C09, one step: the lemma from which chunking independence of feeds of ANY length follows by induction
-// on the steps of the single feed. S in Inv, B a buffer, P = B[..k] a prefix:
+// The one-step lemma. S in Inv, B a buffer, P = B[..k] a prefix:
 //   (q) step(S,P) quiet, having consumed c and reached S'  ==>  step(S', B[c..]) == step(S,B) shifted by c
 //   (r) step(S,P) rejects                                  ==>  step(S,B) rejects the same way
 //   (e) step(S,P) is a non-payload event                   ==>  step(S,B) is identical
@@ -1019,7 +898,7 @@ fn same_step_shifted(a: &SpecStep, b: &SpecStep, by: usize) -> bool {
     out_ok && a.consumed + by == b.consumed && a.next == b.next
 }
 
-fn prefix_step_contract(phase: u8) {
+fn prefix_step_contract(phase: u8) -> Seen {
     let data: [u8; MAXB] = kani::any();
     let len: usize = kani::any();
     let k: usize = kani::any();
@@ -1028,7 +907,17 @@ fn prefix_step_contract(phase: u8) {
     let whole = &data[..len];
     let sp = spec_step(s, &data[..k]);
     let sb = spec_step(s, whole);
-    kani::cover!(matches!(sp.out, Out::Quiet) && sp.consumed > 0 && matches!(sb.out, Out::Event(_)));
+    let seen = Seen {
+        // the prefix is undecided where the whole buffer yields an event
+        quiet: matches!(sp.out, Out::Quiet) && matches!(sb.out, Out::Event(_)),
+        // a payload event cut short by the end of the prefix
+        event: match (sp.out, sb.out) {
+            (Out::Event(Ev::Data { len: a, .. }), Out::Event(Ev::Data { len: b, .. })) => a < b,
+            (Out::Event(Ev::Code { len: a, .. }), Out::Event(Ev::Code { len: b, .. })) => a < b,
+            _ => false,
+        },
+        error: matches!(sp.out, Out::Reject(_)),
+    };
     match sp.out {
         Out::Quiet => {
             assert!(sp.consumed <= k && inv_abs(&sp.next), "[C09,C01] a quiet step stays inside its buffer and inside Inv");
@@ -1063,30 +952,41 @@ fn prefix_step_contract(phase: u8) {
                 "[C09] an event decided on a prefix is the event decided on the whole buffer"),
         },
     }
+    seen
 }
 
 #[kani::proof]
 #[kani::unwind(14)]
 fn prefix_step_signature() {
-    prefix_step_contract(0);
+    let seen = prefix_step_contract(0);
+    kani::cover!(seen.quiet);
 }
 #[kani::proof]
 #[kani::unwind(2)]
 fn prefix_step_box_header() {
-    prefix_step_contract(1);
+    let seen = prefix_step_contract(1);
+    kani::cover!(seen.quiet);
+    kani::cover!(seen.error);
 }
 #[kani::proof]
 #[kani::unwind(2)]
 fn prefix_step_jxlp_index() {
-    prefix_step_contract(2);
+    let seen = prefix_step_contract(2);
+    kani::cover!(seen.quiet);
+    kani::cover!(seen.error);
 }
 #[kani::proof]
 #[kani::unwind(2)]
 fn prefix_step_aux_box() {
-    prefix_step_contract(3);
+    let seen = prefix_step_contract(3);
+    kani::cover!(seen.quiet);
+    kani::cover!(seen.event);
+    kani::cover!(seen.error);
 }
 #[kani::proof]
 #[kani::unwind(2)]
 fn prefix_step_codestream() {
-    prefix_step_contract(4);
+    let seen = prefix_step_contract(4);
+    kani::cover!(seen.quiet);
+    kani::cover!(seen.event);
 }
